@@ -630,7 +630,7 @@ class MatrixProduct:
 
             # check convergence
             if isweep > 0 and percent == 0:
-                error = mps.distance(mps_old) / np.sqrt(mps.dot(mps.conj()).real)
+                error = MatrixProduct.distance(mps, mps_old) / np.sqrt(mps.dot(mps.conj()).real)
                 logger.info(f"Variation compress relative error: {error}")
                 if error < mps.compress_config.vrtol:
                     logger.info("Variational compress is converged!")
